@@ -8,7 +8,12 @@ count are compared with the engine-side truth kept by the harness (see DESIGN.md
 Redelivery stratum: what an engine buffered while disconnected (plus the unacknowledged last message) is delivered in
 permuted order after the re-registration, with and without an aggregator restart in between; after every message the
 active run, the RecentRuns / PlotLogs rows and the attribution of tag rows are compared with the statement read over the
-delivered stream (run_flush_history)."""
+delivered stream (run_flush_history).
+
+Calendar stratum: a seeded sample of the same base / fault histories in which calendar time (0, 1 h, 1 d, 29 d, 31 d,
+400 d) passes before every fault, between a fault and the re-registration and between runs; the aggregator reads the
+time from a harness-side calendar (AggregatorClock of the aggregator rig, installed for these histories only). Same
+oracle: the passing of time changes no verdict."""
 from __future__ import annotations
 
 import asyncio
@@ -35,7 +40,13 @@ RULE = ("base histories over {register, connect, uod-info, run-started, tag batc
         "(time line[d:c]), optionally preceded by a duplicate of the last message delivered before the disconnect (its "
         "reply was lost), are delivered in permuted order (all permutations of buffers with at most 24 [thorough 720 / "
         "F3 48; quick F3 6] permutations, else in-order + reversed + seeded random ones), then the rest of the time "
-        "line live and in order; every history of this stratum is non-trivial")
+        "line live and in order; every history of this stratum is non-trivial. Calendar stratum: a seeded sample (quick "
+        "170 BA + 220 BB + 120 BC, thorough 1600 + 2400 + 1200) of the fault histories above without H; a gap drawn "
+        "uniformly from {0, 1 h, 1 d, 29 d, 31 d, 400 d} is inserted before every fault, after every fault (XR becomes "
+        "X, gap, re-registration; after X / G the engine re-registers lazily before its next message, so the gap is the "
+        "time the engine stayed away / the aggregator stayed down) and before every run-started; the gap advances the "
+        "aggregator's calendar (every datetime.now / time.time read of openpectus.aggregator.{data.repository, "
+        "aggregator, models, webpush_publisher}) and the engine's tick times")
 ASSUMPTIONS = [
     "engine-side truth (which run the engine is in) is kept by the harness: a run starts when its run-started is "
     "delivered and ends when its first run-stopped is delivered; all messages are delivered while connected",
@@ -58,6 +69,15 @@ ASSUMPTIONS = [
     "than one; a run whose run-stopped was delivered while active has exactly one; every opened run has exactly one "
     "plot log; a tag batch of the active run is recorded in that run's plot log only, and is present with its tick "
     "time if it is newer than every batch delivered before. The first divergence ends the judgement of a history",
+    "calendar stratum: the aggregator process(es) and the engine live on one calendar that the harness advances "
+    "between steps (no sleeping): the module-level names `datetime` / `time` of the aggregator modules that read the wall "
+    "clock are rebound to shifted stand-ins while such a history runs; that the shift is in effect is itself checked "
+    "(RecentEngines.last_update written by a disconnect / shutdown lies on the harness calendar: counter "
+    "timed_last_update_on_harness_calendar). The oracle is the one of the fault enumeration, unchanged. An exception "
+    "raised by Aggregator.shutdown() or by the disconnect handler is counted and the history continues as the real "
+    "process would (the process exits / the connection is gone; the next start opens the same database). Whether an "
+    "engine that stayed away for more than 30 days is still *listed* as a recent engine is not a C28 matter and not "
+    "looked at",
     "redelivery stratum, counted and not judged: where a buffered tag batch lands that was displaced out of its own run "
     "(delivered before its run-started / after its run-stopped / while another run is active); presence of a batch "
     "older than one already delivered (throttle); everything after a run-stopped that overtook its own run-started",
@@ -70,7 +90,14 @@ REQUIRED = {"histories": 2000, "continuity_checks": 1500, "post_fault_batches_ch
             "flush_duplicates_delivered": 800, "flush_active_run_checks": 10000, "flush_stored_checks": 10000,
             "flush_continuity_checks": 1000, "flush_late_run_started_while_other_run_active_judged": 40,
             "flush_late_run_stopped_while_other_run_active_judged": 300, "flush_run_superseded_by_run_started": 300,
-            "flush_live_batches_checked": 1500, "flush_end_checks": 1500}
+            "flush_live_batches_checked": 1500, "flush_end_checks": 1500,
+            # calendar stratum
+            "timed_histories": 450, "timed_gaps_over_30d": 400, "timed_last_update_on_harness_calendar": 500,
+            "timed_continuity_checks": 400, "timed_faults_in_run_row_older_than_30d": 60,
+            "timed_continuity_checks_after_fault_on_row_older_than_30d": 60,
+            "timed_continuity_checks_row_older_than_30d_at_reregistration": 100,
+            "timed_post_fault_batches_checked": 300, "timed_stored_once_checks": 600,
+            "timed_stored_once_checks_run_longer_than_30d": 100}
 EXHAUSTIVE_ALL = False     # the fault placements are enumerated completely; the redelivery stratum samples the
                            # permutations of large buffers (exhaustive_parts says what is complete)
 
@@ -141,6 +168,41 @@ def enumerate_histories(name, nfaults, min_pos=0):
     return out
 
 
+# ------------------------------------------------------------------ calendar stratum (time passes between the steps)
+# RecentEngines.last_update is written when an engine disconnects and when the aggregator shuts down, and the
+# aggregator reads the wall clock when it looks recent engines up; the base histories all happen within milliseconds of
+# aggregator time. This stratum takes the same base / fault histories and lets calendar time pass: before every fault,
+# between a fault and the re-registration (XR becomes X, gap, R; after X / G the engine re-registers lazily before its
+# next message, so the gap is the time the engine stayed away / the aggregator stayed down) and before every
+# run-started (between runs). The aggregator's calendar is the harness-side AggregatorClock of the rig.
+DAY = 86400.0
+OLD_ROW_S = 30 * DAY
+GAPS = [0.0, 3600.0, DAY, 29 * DAY, 31 * DAY, 400 * DAY]
+
+
+def enumerate_timed_histories(name, nfaults, min_pos, n, tseed):
+    """a seeded sample of n fault histories of the base (hard crashes left out: they are not judged) with a gap drawn
+    from GAPS at every slot; the same list for every part of one base"""
+    import random
+    rnd = random.Random(tseed)
+    hs = [h for h in enumerate_histories(name, nfaults, min_pos) if not any(m[0] == "H" for m in h)]
+    pick = sorted(rnd.sample(range(len(hs)), min(n, len(hs))))
+    out = []
+    for idx in pick:
+        t = []
+        for m in hs[idx]:
+            if m[0] == "XR":
+                t += [["gap", rnd.choice(GAPS)], ["X", m[1]], ["gap", rnd.choice(GAPS)], ["R", m[1]]]
+            elif m[0] in ("X", "G"):
+                t += [["gap", rnd.choice(GAPS)], list(m), ["gap", rnd.choice(GAPS)]]
+            elif m[0] == "start":
+                t += [["gap", rnd.choice(GAPS)], list(m)]
+            else:
+                t.append(list(m))
+        out.append([m for m in t if not (m[0] == "gap" and m[1] == 0.0)])
+    return out
+
+
 def plan(tier, seed):
     specs = []
     if tier == "quick":
@@ -163,13 +225,45 @@ def plan(tier, seed):
             specs.append({"mode": "flush", "base": name, "max_perms": max_perms, "faults": faults, "part": part,
                           "of": parts, "seed": seed * 1000003 + i, "fseed": seed * 1000003 + 500 + len(name)})
             i += 1
+    # calendar stratum: a sample of the fault histories with gaps between the steps
+    if tier == "quick":
+        tlayout = (("BA", 2, 0, 170, 3), ("BB", 2, 0, 220, 4), ("BC", 2, 6, 120, 3))
+    else:
+        tlayout = (("BA", 3, 0, 1600, 12), ("BB", 3, 0, 2400, 16), ("BC", 2, 0, 1200, 8))
+    for name, nf, min_pos, n, parts in tlayout:
+        for part in range(parts):
+            specs.append({"mode": "timed", "base": name, "nfaults": nf, "min_pos": min_pos, "n": n, "part": part,
+                          "of": parts, "seed": seed * 1000003 + i, "tseed": seed * 1000003 + 700 + len(specs) - part})
+            i += 1
     return specs
 
 
 async def run_history(hist, base_name, params, res: Result, rig):
+    """params["timed"]: the history contains ["gap", seconds] steps; the aggregator's calendar (AggregatorClock) is
+    installed for the duration of this history only"""
+    if not params.get("timed"):
+        return await _run_history(hist, base_name, params, res, rig, None)
+    from opv.rigs.aggregator_rig import AggregatorClock
+    clock = AggregatorClock()
+    try:
+        if clock.install() == 0:
+            res.count("timed_clock_not_installed_not_judged")
+            res.notes.append("C28: no wall-clock read of the aggregator modules could be rebound; calendar stratum void")
+            return
+        await _run_history(hist, base_name, params, res, rig, clock)
+    finally:
+        clock.uninstall()
+
+
+async def _run_history(hist, base_name, params, res: Result, rig, clock):
     from opv.rigs.aggregator_rig import reg_msg, uod_info_msg, tags_msg, run_started_msg, run_stopped_msg
 
     interval, spacing = params["interval"], params["spacing"]
+    timed = clock is not None
+    now_s = 0.0                                  # calendar time passed in this history (harness side)
+    row_at: dict[str, float] = {}                # engine -> calendar time its RecentEngines row was last written
+    old_row_fault: dict[str, bool] = {}          # engine -> a fault hit its run while its row was older than 30 d
+    run_began_s: dict[str, float] = {}
     rig.wipe()
     eids: dict[str, str] = {}
     connected: dict[str, bool] = {}
@@ -205,6 +299,12 @@ async def run_history(hist, base_name, params, res: Result, rig):
             return
         res.count("continuity_checks")
         stats["cont"] += 1
+        if timed:
+            res.count("timed_continuity_checks")
+            if old_row_fault.pop(e, False):
+                res.count("timed_continuity_checks_after_fault_on_row_older_than_30d")
+            if e in row_at and now_s - row_at[e] > OLD_ROW_S:
+                res.count("timed_continuity_checks_row_older_than_30d_at_reregistration")
         if got == r:
             if ed.run_data.run_started != run_started_at.get(r):
                 res.count("run_started_time_changed_not_judged")
@@ -222,8 +322,43 @@ async def run_history(hist, base_name, params, res: Result, rig):
         viol.append((mech, f"engine {e} is in run {r}; after {why} + re-registration the aggregator has run {got} "
                            f"(RecentEngines row: {'missing' if rec is None else 'run_id=' + str(rec['run_id'])})"))
 
+    def fault_hits(e):
+        """calendar stratum: a fault that makes the aggregator rewrite engine e's RecentEngines row"""
+        if not timed:
+            return
+        if eng_run.get(e) is not None and judged:
+            if e in row_at and now_s - row_at[e] > OLD_ROW_S:
+                res.count("timed_faults_in_run_row_older_than_30d")
+                old_row_fault[e] = True
+            elif e not in row_at and now_s > OLD_ROW_S:
+                res.count("timed_faults_in_run_connected_over_30d_no_row_yet")
+
+    def row_written(e, raised):
+        if not timed:
+            return
+        row_at[e] = now_s
+        if raised:
+            return
+        lu = rig.recent_engine_last_update(eids[e])
+        if lu is not None and abs((lu - clock.now()).total_seconds()) < 300:
+            res.count("timed_last_update_on_harness_calendar")
+        else:
+            res.count("timed_last_update_off_harness_calendar_not_judged")
+
     for i, m in enumerate(hist):
         kind = m[0]
+        if kind == "gap":
+            if timed:
+                clock.advance(m[1])
+                now_s += m[1]
+                res.count("timed_gaps")
+                if m[1] > OLD_ROW_S:
+                    res.count("timed_gaps_over_30d")
+            continue
+        if kind == "R":                           # re-registration now (XR = X, gap, R in the calendar stratum)
+            if m[1] in eids and not connected.get(m[1]):
+                await reconnect(m[1], last_fault.get(m[1], "X"))
+            continue
         if kind in ("X", "XR"):
             e = m[1]
             if e not in eids:
@@ -231,7 +366,18 @@ async def run_history(hist, base_name, params, res: Result, rig):
                 continue
             if connected.get(e):
                 res.count("disconnects")
-                await rig.disconnect(eids[e])
+                if timed:
+                    fault_hits(e)
+                    raised = False
+                    try:
+                        await rig.disconnect(eids[e])
+                    except Exception:             # the websocket handler dies; the connection is gone all the same
+                        raised = True
+                        res.count("timed_disconnect_handler_raised_history_continued")
+                        rig._channels.pop(eids[e], None)
+                    row_written(e, raised)
+                else:
+                    await rig.disconnect(eids[e])
                 connected[e] = False
                 last_fault[e] = "X"
                 if eng_run.get(e) is not None and judged:
@@ -258,8 +404,26 @@ async def run_history(hist, base_name, params, res: Result, rig):
                     last_fault[e] = kind
                 else:
                     last_fault[e] = last_fault.get(e, "X") + "+" + kind
+            if timed and kind == "G":
+                # as the real process: an exception out of Aggregator.shutdown() is logged, the process exits, the next
+                # start opens the same database
+                was = [e for e in eids if connected.get(e)]
+                for e in was:
+                    fault_hits(e)
+                raised = False
+                try:
+                    rig.agg.shutdown()
+                except Exception:
+                    raised = True
+                    res.count("timed_shutdown_raised_history_continued")
+                for e in was:
+                    row_written(e, raised)
+                await rig.disp.shutdown()
+                await rig.restart(graceful=False)
+            else:
+                await rig.restart(graceful=(kind == "G"))
+            for e in eids:
                 connected[e] = False
-            await rig.restart(graceful=(kind == "G"))
             continue
         e = m[1]
         if kind == "reg":
@@ -276,13 +440,14 @@ async def run_history(hist, base_name, params, res: Result, rig):
             await rig.send(uod_info_msg(eid, ["T1", "T2"], interval))
         elif kind == "start":
             r = m[2]
-            await rig.send(run_started_msg(eid, r, 1000.0 + i * spacing))
+            await rig.send(run_started_msg(eid, r, 1000.0 + i * spacing + now_s))
             eng_run[e] = r
+            run_began_s[r] = now_s
             ed = rig.engine_data(eid)
             run_started_at[r] = ed.run_data.run_started if ed is not None and ed.has_run() else None
         elif kind == "tags":
             r, k = m[2], m[3]
-            t = 1000.0 + i * spacing
+            t = 1000.0 + i * spacing + now_s       # the engine's clock follows the calendar too
             v1, v2 = float(1000 * k + i) + 0.5, 1000 * k + i
             await rig.send(tags_msg(eid, r, [("T1", t, v1), ("T2", t, v2)]))
             rows = rig.plot_values(after_id=last_id)
@@ -293,6 +458,8 @@ async def run_history(hist, base_name, params, res: Result, rig):
                 good = [x for x in mine if x["run_id"] == r and x["engine_id"] == eid and x["tick_time"] == t]
                 if faults_in_run.get(r, 0) >= 1:
                     res.count("post_fault_batches_checked")
+                    if timed:
+                        res.count("timed_post_fault_batches_checked")
                     if any(x["run_id"] != r or x["engine_id"] != eid for x in mine):
                         viol.append(("C28.tag_data_recorded_in_other_plot_log",
                                      f"batch #{i} of run {r} engine {e} recorded as {mine}"))
@@ -315,6 +482,10 @@ async def run_history(hist, base_name, params, res: Result, rig):
                 eng_run[e] = None
             if judged:
                 res.count("stored_once_checks")
+                if timed:
+                    res.count("timed_stored_once_checks")
+                    if stopped[r] == 1 and now_s - run_began_s.get(r, now_s) > OLD_ROW_S:
+                        res.count("timed_stored_once_checks_run_longer_than_30d")
                 n = len(rig.recent_runs(r))
                 if n != 1:
                     mech = "C28.run_not_stored_when_stopped" if n == 0 else "C28.run_stored_more_than_once"
@@ -338,6 +509,8 @@ async def run_history(hist, base_name, params, res: Result, rig):
     else:
         res.count("hard_crash_histories_not_judged")
     res.count("histories")
+    if timed:
+        res.count("timed_histories")
     nontrivial = stats["fault_in_run"] >= 1 and stats["cont"] >= 1
     res.case({"h": hist, "p": params} if nontrivial else None,
              sample={"base": base_name, "history": hist, "params": params, "continuity_checks": stats["cont"],
@@ -641,6 +814,11 @@ async def _shard(spec, res):
                     f"{spec['base']} redelivery: every disconnect point d, reconnect point c > d, duplicate yes/no, fault "
                     f"in {spec['faults']}; all permutations of every buffer with at most {spec['max_perms']} "
                     f"permutations, {spec['max_perms']} permutations (in order, reversed, seeded random) of larger buffers")
+            return
+        if spec.get("mode") == "timed":
+            hs = enumerate_timed_histories(spec["base"], spec["nfaults"], spec["min_pos"], spec["n"], spec["tseed"])
+            for h in hs[spec["part"]::spec["of"]]:
+                await run_history(h, spec["base"], dict(params, timed=True), res, rig)
             return
         hs = enumerate_histories(spec["base"], spec["nfaults"], spec.get("min_pos", 0))
         for h in hs[spec["part"]::spec["of"]]:
